@@ -308,6 +308,7 @@ theorem fdtCompleted_attach (I : ObjIface σ) (s s' : State σ) (id : Nat) (now 
       simp only [Except.ok.injEq, Prod.mk.injEq] at h
       obtain ⟨rfl, _, rfl⟩ := h
       have he0 : NoAttach e0 := by
+        unfold fdtCb at hcb
         split at hcb
         · split at hcb
           · injection hcb with hcb; subst hcb; intro t i hm; simp at hm
